@@ -57,6 +57,9 @@ PROVED = (
     'proved for F09b, F09e, near-coincident stations. '
     'LighthouseBsVectors.projection_pair_list/angle_list are functions of the current contents after any history of '
     'in-place updates and reads (C09_container_reads_are_pure; C09_length_keyed_cache_refuted). '
+    'Per-pair aggregates are keyed by the pair: the lists voted on for (i, j) come from exactly the samples seeing i and j, '
+    'for any unbounded ids (C09_pair_lists_are_own_partial, C09_pair_aggregates_do_not_mix_partial; '
+    'C09_packed_pair_key_refuted for (bs1 << 4) | bs2). '
     'EXTENSION outside the quantifier: calls built from steps that touch no shared state return, under every '
     'interleaving, what they return alone (C09_local_steps_commute, C09_overlapping_estimates_independent; '
     'C09_shared_scratch_refuted for a class-level scratch cell). '
@@ -582,7 +585,12 @@ def _impl_decide(case):
             out.append([[int(k), float(v.translation[0])] for k, v in d.items()])
         else:
             out.append(None)
-    return {'expected': {(int(k[0]), int(k[1])): [float(x) for x in v] for k, v in pos.items()}, 'samples': out}
+    def pk(k):
+        try:
+            return (int(k[0]), int(k[1]))
+        except Exception:  # noqa  (a key that is not a pair: reported as a disagreement, not a harness crash)
+            return ('key', repr(k))
+    return {'expected': {pk(k): [float(x) for x in v] for k, v in pos.items()}, 'samples': out}
 
 
 def _q(x):
@@ -653,6 +661,28 @@ def _decide_cases(ctx, n):
                 s.append([b, [sols[0].numerator, sols[0].denominator], [sols[1].numerator, sols[1].denominator]])
             ss.append(s)
         cases.append({'ss': ss, 'gen': kind, 'truth': {str(b): [X[b].numerator, X[b].denominator] for b in ids}})
+    # ---- Wave 15: wide ids, in particular sets that collide under a packed key (a << k) | b, with a chain in which both
+    #      colliding pairs are lowest-id pairs of samples; own random stream (the main one is not disturbed)
+    import random as _random
+    R = _rooms()
+    r2 = _random.Random(ctx.seed * 1000003 + 15)
+    for q in range(max(12, n // 10)):
+        kk, a, a2, b = R.colliding_ids(r2, k=[4, 4, 3, 5, 6, 7, 8][q % 7])
+        ids = [a, a2, b] + ([b + r2.randint(1, 300)] if r2.random() < 0.5 else [])
+        X = {i: Fraction(r2.randint(-256, 256), 64) for i in ids}
+        ss = []
+        for k in range(r2.randint(4, 8)):
+            c = Fraction(r2.randint(-128, 128), 64)
+            sub = ([a, b] if k % 2 == 0 else [a2, b]) + (ids[3:] if (len(ids) > 3 and r2.random() < 0.4) else [])
+            s = []
+            for i in sub:
+                t = X[i] - c + Fraction(r2.choice([0, 0, 1, -1]), 4096)
+                m = t + Fraction(r2.choice([-1, 1]) * r2.randint(70, 400), 64)
+                s.append([i, [t.numerator, t.denominator], [m.numerator, m.denominator]])
+            r2.shuffle(s)
+            ss.append(s)
+        cases.append({'ss': ss, 'gen': 'colliding_ids_k%d' % kk,
+                      'truth': {str(i): [X[i].numerator, X[i].denominator] for i in ids}})
     return cases
 
 
@@ -795,7 +825,7 @@ def _tie_decide(ctx, dis, info):
                 k += 1 + 3 * n
         ok = 'raise' not in iv
         if ok:
-            ok = sorted(iv['expected']) == sorted(exp) and all(
+            ok = set(iv['expected']) == set(exp) and all(
                 abs(iv['expected'][p][0] - float(exp[p])) < 1e-9 and abs(iv['expected'][p][1]) < 1e-12 for p in exp)
         if ok:
             for a, b in zip(iv['samples'], mdec):
@@ -1363,9 +1393,20 @@ def oracle(ctx, deep=False):
         _count_premise(prem, 'sparse_link_21_40_poses', pr, j)
         if j and not any(x['class'] == j[0] for x in failures):
             failures.append(_room_failure(case, j, 'room'))
+    # ---- Wave 15: "any base-station ids": rooms whose two lowest-id pairs collide under a k-bit packed pair key, both
+    #      being lowest-id pairs of samples of a partial chain (premise holds by construction of the draw)
+    import random as _random
+    r2 = _random.Random(ctx.seed * 1000003 + 16)
+    cicases = [R.gen_colliding_id_room(r2, k=[4, 4, 3, 5, 6, 7, 8][q % 7]) for q in range(ctx.scale(4, 42) * (2 if deep else 1))]
+    for case, (j, pr) in zip(cicases, _run_rooms(cicases, False)):
+        n += 1
+        _count_premise(prem, 'colliding_ids', pr, j)
+        if j and not any(x['class'] == j[0] for x in failures):
+            failures.append(_room_failure(case, j, 'room'))
     # ---- rooms with IPPE replaced by the exact pose: everything after IPPE must be right, without exception
     n_exact = ctx.scale(120, 1500) * (3 if deep else 1)
     ecases = [R.gen_room(ctx.rng) for _ in range(n_exact)]
+    ecases = [c if q % 2 else R.relabel_ids(c, R.wide_ids(r2, len(c['bs']))) for q, c in enumerate(ecases)]
     for case, (j, _pr) in zip(ecases, _run_rooms(ecases, True)):
         n += 1
         if j and not any(x['class'] == j[0] for x in failures):
@@ -1373,6 +1414,7 @@ def oracle(ctx, deep=False):
     # ---- the sampled clause itself: unpatched pipeline on random rooms of the envelope
     n_rooms = ctx.scale(40, 400) * (3 if deep else 1)
     cases = [R.gen_room(ctx.rng) for _ in range(n_rooms)]
+    cases = [c if q % 2 else R.relabel_ids(c, R.wide_ids(r2, len(c['bs']))) for q, c in enumerate(cases)]
     n_known = 0
     modes = {}
     for case, (j, pr) in zip(cases, _run_rooms(cases, False)):
@@ -1400,7 +1442,8 @@ def oracle(ctx, deep=False):
             'distribution': {'rooms': n_rooms, 'rooms_exact_ippe': n_exact, 'modes': modes,
                              'known_class_failures': n_known, 'structured_rooms_exact_ippe': n_sx,
                              'structured_rooms': n_su, 'structured_known_class_failures': su_known,
-                             'average_cases': len(acases), 'reuse_histories': len(rcases), 'sparse_link_rooms': len(spcases), 'decision_premise': prem, 'overlapping_call_histories': len(ocases)}}
+                             'average_cases': len(acases), 'reuse_histories': len(rcases), 'sparse_link_rooms': len(spcases), 'colliding_id_rooms': len(cicases),
+                             'rooms_relabelled_with_wide_ids': (len(cases) + 1) // 2 + (len(ecases) + 1) // 2, 'decision_premise': prem, 'overlapping_call_histories': len(ocases)}}
 
 
 def replay(payload, ctx):
